@@ -115,7 +115,8 @@ def _wake_through(e, func, wake):
         if n.kind == "for_iter":
             # a for-loop whose every iteration wakes counts as a wake (zero
             # iterations = no manager registered)
-            w = g.escape_path(n, lambda x: x in direct, until_pred=lambda x: x is n, start_labels=["T"])
+            w = g.escape_path(n, lambda x: x in direct, start_labels=["T"],
+                              until_pred=lambda x, n=n: any(s is n for s, _ in x.succ))
             if w is None and any(l == "T" for _, l in n.succ):
                 loops.add(n)
     return direct | loops
@@ -307,10 +308,7 @@ def _origin(e, func, name_expr):
             tg = n.target
             names = [tg] if isinstance(tg, ast.Name) else (tg.elts if isinstance(tg, (ast.Tuple, ast.List)) else [])
             if any(isinstance(x, ast.Name) and x.id == name for x in names):
-                if _iterates_pending(e, func, n.iter):
-                    res.append(("iter", n))
-                else:
-                    res.append(("other", n.iter))
+                res.append(("iter", n))
     return res
 
 
@@ -341,14 +339,15 @@ def r_own_resolve(e, R):
             continue
         sites += 1
         origins = _origin(e, f, recv.value)
-        bad = [o for o in origins if o[0] in ("iter", "index")]
+        bad = [o for o in origins if o[0] != "removed"]
         if not origins:
             bad = [("other", recv.value)]
         if bad:
             o = bad[0]
-            construct = norm(o[1].iter) if o[0] == "iter" else norm(o[1])
-            if o[0] == "iter":
+            if isinstance(o[1], (ast.For, ast.comprehension)):
                 construct = f"for {norm(o[1].target)} in {norm(o[1].iter)}"
+            else:
+                construct = norm(o[1])
             R.fail("R-OWN-RESOLVE", f.short, construct,
                    f"a future is resolved ({norm(c)[:60]}) on an item that was not atomically removed from the pending "
                    f"table by this thread: another role (feeder error path / manager) may remove or resolve it "
@@ -524,7 +523,9 @@ def _flag_gate_tests(e, func):
             continue
         x = t.ast
         if isinstance(x, ast.Attribute) and x.attr == "shutdown" and (set(e.pt.ev(func, x.value)) & a.flags_objs):
-            out.append((t, "F"))
+            # a flag test is a gate only if some lock serialises it with the caller's use of the fields
+            if e.held(func)[t] | e.entry_held().get(func.qualname, frozenset()):
+                out.append((t, "F"))
     return out
 
 
@@ -952,7 +953,7 @@ def r_lock_order(e, R):
             continue
         g = e.cfg(f)
         held = e.held(f)
-        eh = e.entry_held().get(f.qualname, frozenset())
+        eh = e.entry_may_held().get(f.qualname, frozenset())
         for n in g.nodes:
             toks = []
             if n.kind == "with_enter":
@@ -969,6 +970,10 @@ def r_lock_order(e, R):
                     if not _is_lock(e, h):
                         continue
                     if h == t:
+                        if not _reentrant(t) and not (t <= e.anchors.exit_locks):
+                            R.fail("R-LOCK-ORDER", f.short, f"re-acquire {_lock_name(e, t)}",
+                                   f"{_lock_name(e, t)} (not re-entrant) is acquired while it may already be held by the same "
+                                   "thread: self-deadlock", e.loc(f, n.ast if not isinstance(n.ast, ast.withitem) else n.ast.context_expr))
                         continue
                     add("L:" + _lock_name(e, h), "L:" + _lock_name(e, t), f"{f.short}:{n.lineno} acquires {_lock_name(e, t)} holding {_lock_name(e, h)}")
     # lock -> role (blocking waits with a lock held) and role -> lock
@@ -1074,6 +1079,10 @@ def r_lock_order(e, R):
     R.info["wait_for_nodes"] = len({x for k in edges for x in k})
     if len(edges) < 8:
         raise AnalysisError(f"R-LOCK-ORDER: only {len(edges)} wait-for edges found (floor 8)")
+
+
+def _reentrant(tok):
+    return all("RLock" in o[2] for o in tok)
 
 
 def _benign_cycle(c):
